@@ -22,7 +22,7 @@ from ..drivers import AsyncDriver, Harness, SyncDriver, canon_interp
 
 LEVEL = "model_checking"
 RULE = (
-    "LIFE machine (idle / armed[after-timer + invoked child machine + delayed send] / done / failing[unhandled service "
+    "LIFE machine (idle / armed[after-timer + invoked child machine + delayed send] / done[final state that itself invokes a failing service] / failing[unhandled service "
     "error], spawnChild with systemId whose child arms delayed sendParent with and without a send id, stopChild); "
     "operation alphabet {start, E, FIN, FAIL, SPAWN, KILL, ARM, BACK, stop, TICK, "
     "snapshot+restore, snapshot+restore+start}; BFS over operation sequences to the depth bound, deduplicated by "
@@ -87,7 +87,8 @@ def make_cfg() -> Dict[str, Any]:
                 "invoke": {"id": "inv", "src": "kid2", "onDone": {"target": "idle", "actions": ["tr:invdone"]}},
                 "on": {"BACK": "idle", "E": {"actions": ["tr:e"]}},
             },
-            "done": {"type": "final", "entry": ["en:done"]},
+            # the top-level final state itself invokes a failing service: a failure after completion must not move done -> error
+            "done": {"type": "final", "entry": ["en:done"], "invoke": {"id": "late", "src": "bad"}},
             "failing": {"entry": ["en:failing"], "invoke": {"id": "b", "src": "bad"}, "on": {"E": {"actions": ["tr:e"]}}},
         },
         "on": {"PING": {"actions": ["tr:ping"]}, "KPING1": {"actions": ["tr:kping"]}, "KPING2": {"actions": ["tr:kping"]}},
@@ -205,6 +206,12 @@ class Life:
         # ---- specification automaton
         if status0 != status1 and (status0, status1) not in ALLOWED:
             self.problems.append(("illegal-status-edge", f"{status0} -> {status1} on {op}"))
+        # the edges taken INSIDE the step, as the plugin saw them: on_done then on_error of this interpreter (done -> error), or the reverse
+        mine = [e[0] for e in self.h.rec.log if e[0] in ("DONE", "ERR") and e[1] == i.id]
+        if "DONE" in mine and "ERR" in mine and not self.restored:
+            self.problems.append(("illegal-status-edge", f"{' -> '.join('done' if x == 'DONE' else 'error' for x in mine)} inside {op} (on_done and on_error both reported)"))
+        if status1 in ("done",) and i.error is not None:
+            self.problems.append(("completed-interpreter-carries-error", f"{i.error!r}"))
         if op == "start":
             if status0 == "stopped":
                 if not isinstance(err, XStateMachineError):
